@@ -6,6 +6,9 @@ namespace {
 const ClipType CTS[] = {ClipType::Intersection, ClipType::Union, ClipType::Difference, ClipType::Xor};
 const FillRule FRS[] = {FillRule::EvenOdd, FillRule::NonZero, FillRule::Positive, FillRule::Negative};
 
+// strict scope: no mismatch is attributed to KF-C04-a (used by the enumerated part, on which the pinned tree is clean)
+bool STRICT = false;
+
 struct Node { Path64 poly; int level; int parent; std::vector<int> kids; bool isHole; };
 
 void flatten(const PolyPath64& n, int parent, std::vector<Node>& out) {
@@ -55,7 +58,7 @@ bool checkTree(const std::vector<Node>& nodes, bool rev, bool degenerateInput, s
     if (n.isHole != wantHole) { why = "IsHole() inconsistent with level " + std::to_string(n.level); return false; }
     if (O::area2(n.poly) == 0) {
       // on degenerate input a hole and an adjacent outer region can be emitted as one self-touching path (cf. KF-C03-c)
-      if (degenerateInput && O::compositePath(n.poly)) { tainted[k] = 1; v.known = "KF-C04-a"; ST.count("kf_selftouching_zero_area_path"); continue; }
+      if (!STRICT && degenerateInput && O::compositePath(n.poly)) { tainted[k] = 1; v.known = "KF-C04-a"; ST.count("kf_selftouching_zero_area_path"); continue; }
       why = "zero-area polygon in tree";
       return false;
     }
@@ -66,7 +69,7 @@ bool checkTree(const std::vector<Node>& nodes, bool rev, bool degenerateInput, s
     if (n.parent > 0) {
       int r = O::insideByMidpoints(n.poly, d2[n.parent]);
       if (r == 0 || r == -2) {
-        if (degenerateInput || pathsTouch(n.poly, nodes[n.parent].poly)) { tainted[k] = 1; v.known = "KF-C04-a"; ST.count("kf_touching_child_not_inside_parent"); }
+        if (!STRICT && (degenerateInput || pathsTouch(n.poly, nodes[n.parent].poly))) { tainted[k] = 1; v.known = "KF-C04-a"; ST.count("kf_touching_child_not_inside_parent"); }
         else { why = "polygon starting " + O::ptStr(n.poly[0]) + " (level " + std::to_string(n.level) + ") does not lie inside its parent"; return false; }
       }
       if (r == -1) ST.count("nesting_unresolved");
@@ -78,7 +81,7 @@ bool checkTree(const std::vector<Node>& nodes, bool rev, bool degenerateInput, s
       if (s == (int)k) continue;
       int r = O::insideByMidpoints(n.poly, d2[s]);
       if (r == 1 || r == -2) {
-        if (degenerateInput || pathsTouch(n.poly, nodes[s].poly)) { tainted[k] = 1; tainted[s] = 1; v.known = "KF-C04-a"; ST.count("kf_touching_polygon_inside_sibling"); }
+        if (!STRICT && (degenerateInput || pathsTouch(n.poly, nodes[s].poly))) { tainted[k] = 1; tainted[s] = 1; v.known = "KF-C04-a"; ST.count("kf_touching_polygon_inside_sibling"); }
         else { why = "polygon starting " + O::ptStr(n.poly[0]) + " lies inside its sibling starting " + O::ptStr(nodes[s].poly[0]); return false; }
       }
     }
@@ -94,7 +97,7 @@ bool checkTree(const std::vector<Node>& nodes, bool rev, bool degenerateInput, s
         for (size_t q = 1; q < nodes.size(); ++q) if (q != k && O::insideByMidpoints(n.poly, d2[q]) == 1) ++depth;
         if (((depth % 2 == 0) != rev) == positive) later = true;
       }
-      if (later) { tainted[k] = 1; v.known = "KF-C04-a"; ST.count("kf_touching_orientation"); continue; }
+      if (later && !STRICT) { tainted[k] = 1; v.known = "KF-C04-a"; ST.count("kf_touching_orientation"); continue; }
       why = "polygon starting " + O::ptStr(n.poly[0]) + " at level " + std::to_string(n.level) + " has " +
             (positive ? "positive" : "negative") + " orientation";
       return false;
@@ -221,6 +224,7 @@ Verdict judgeImpl(const Case& c, bool gp, bool strictRect = false) {
 Verdict judgeGp(const Case& c) { return judgeImpl(c, true); }
 Verdict judgeRect(const Case& c) { return judgeImpl(c, false); }
 Verdict judgeRectPlain(const Case& c) { return judgeImpl(c, false, true); }
+Verdict judgeStrict(const Case& c) { STRICT = true; Verdict v = judgeImpl(c, false, true); STRICT = false; return v; }
 
 Case genGp() {
   Case c;
@@ -308,6 +312,26 @@ Case genRectDistinct() {
   return c;
 }
 
+// exhaustive scope: an enclosing square plus three rectangles of the interior lattice (step 2, so features are 2 apart
+// unless they coincide), the third one once as subject and once as clip.  Shared lines, overlapping edges, touching
+// corners, rectangles merged by horizontal joins into rings with islands: all occur.  Judged strictly.
+void enumNest3N(int G, const std::function<void(const Case&)>& f) {
+  Paths64 rects;
+  for (int x0 = 1; x0 < G; ++x0) for (int x1 = x0 + 1; x1 < G; ++x1)
+    for (int y0 = 1; y0 < G; ++y0) for (int y1 = y0 + 1; y1 < G; ++y1)
+      rects.push_back({Point64(2 * x0, 2 * y0), Point64(2 * x1, 2 * y0), Point64(2 * x1, 2 * y1), Point64(2 * x0, 2 * y1)});
+  Path64 outer = {Point64(0, 0), Point64(2 * G, 0), Point64(2 * G, 2 * G), Point64(0, 2 * G)};
+  for (size_t a = 0; a < rects.size(); ++a)
+    for (size_t b = a; b < rects.size(); ++b)
+      for (size_t d = 0; d < rects.size(); ++d) {
+        if (d >= b) { Case c; c.p["subj"] = {outer, rects[a], rects[b], rects[d]}; c.p["clip"] = {}; c.i["useD"] = 0; f(c); }
+        { Case c; c.p["subj"] = {outer, rects[a], rects[b]}; c.p["clip"] = {rects[d]}; c.i["useD"] = (a + b + d) % 7 == 0; f(c); }
+      }
+}
+
+void enumNest3(const std::function<void(const Case&)>& f) { enumNest3N(5, f); }
+void enumNest3Big(const std::function<void(const Case&)>& f) { enumNest3N(6, f); }
+
 }  // namespace
 
 int main(int argc, char** argv) {
@@ -317,5 +341,7 @@ int main(int argc, char** argv) {
   H.parts.push_back({"rect", genRect, judgeRect, nullptr, true});
   H.parts.push_back({"rectdistinct", genRectDistinct, judgeRect, nullptr, true});
   H.parts.push_back({"rectplain", genRectPlain, judgeRectPlain, nullptr, true});
+  H.parts.push_back({"nest3", nullptr, judgeStrict, enumNest3, false});
+  H.parts.push_back({"nest3big", nullptr, judgeRectPlain, enumNest3Big, false});  // KF-C04-a occurs in this scope: not strict
   return harnessMain(argc, argv, H);
 }
